@@ -9,6 +9,7 @@
 //! observation:
 //!   v = FontInfo::validate()            ok | err:<Kind> | panic | na
 //!   s = Font::save over an existing dir ok | refused:<Kind> | late:<kept|wiped> | other | panic | na
+//!   so / sq = the same through Font::save_with_options (default options / two-space indent and single quotes)
 //!   l = Font::load of a generated tree  loaded:<same|diff|nomem> | parse | invalid:<Kind> | other | panic
 //!   u2 = Font::load of a format-2 tree holding the same attributes (only date / selection / class / lists)   loaded | parse | invalid:<Kind> | other | panic | na
 //!   u1 = Font::load of a format-1 tree whose lib carries the lists as org.robofab.postScriptHintData          (same classes)
@@ -595,49 +596,63 @@ pub fn observe(ctx: &Ctx, raw: &Raw) -> String {
             Ok(Err(e)) => format!("err:{}", kind(&e)),
         },
     };
-    // save over an existing directory holding a marker
-    let s = match &mem {
-        None => "na".to_string(),
-        Some(fi) => {
-            rm_rf(&ctx.save_dir);
-            std::fs::create_dir_all(&ctx.save_dir).unwrap();
-            std::fs::write(ctx.save_dir.join("marker"), b"m").unwrap();
-            let mut font = Font::new();
-            font.font_info = fi.clone();
-            match guarded(|| font.save(&ctx.save_dir)) {
-                Err(_) => "panic".into(),
-                Ok(Ok(())) => {
-                    // what was written must load again and hold the same info
-                    match guarded(|| Font::load(&ctx.save_dir)) {
-                        Ok(Ok(f2)) => {
-                            if f2.font_info == *fi {
-                                "ok".into()
-                            } else {
-                                "ok:reload-differs".into()
+    // save over an existing directory holding a marker, through every public save entry point:
+    // Font::save, Font::save_with_options(default options), Font::save_with_options(custom options)
+    let save_via = |mode: usize| -> String {
+        match &mem {
+            None => "na".to_string(),
+            Some(fi) => {
+                rm_rf(&ctx.save_dir);
+                std::fs::create_dir_all(&ctx.save_dir).unwrap();
+                std::fs::write(ctx.save_dir.join("marker"), b"m").unwrap();
+                let mut font = Font::new();
+                font.font_info = fi.clone();
+                let res = guarded(|| match mode {
+                    0 => font.save(&ctx.save_dir),
+                    1 => font.save_with_options(&ctx.save_dir, &norad::WriteOptions::default()),
+                    _ => font.save_with_options(
+                        &ctx.save_dir,
+                        &norad::WriteOptions::new().indent(norad::WriteOptions::SPACE, 2).quote_char(norad::QuoteChar::Single),
+                    ),
+                });
+                match res {
+                    Err(_) => "panic".into(),
+                    Ok(Ok(())) => {
+                        // what was written must load again and hold the same info
+                        match guarded(|| Font::load(&ctx.save_dir)) {
+                            Ok(Ok(f2)) => {
+                                if f2.font_info == *fi {
+                                    "ok".into()
+                                } else {
+                                    "ok:reload-differs".into()
+                                }
                             }
+                            _ => "ok:reload-fails".into(),
                         }
-                        _ => "ok:reload-fails".into(),
                     }
-                }
-                Ok(Err(e)) => {
-                    let kept = ctx.save_dir.join("marker").exists();
-                    match e {
-                        norad::error::FontWriteError::InvalidFontInfo(k) => {
-                            if kept {
-                                format!("refused:{}", kind(&k))
-                            } else {
-                                format!("refused-wiped:{}", kind(&k))
+                    Ok(Err(e)) => {
+                        let kept = ctx.save_dir.join("marker").exists();
+                        match e {
+                            norad::error::FontWriteError::InvalidFontInfo(k) => {
+                                if kept {
+                                    format!("refused:{}", kind(&k))
+                                } else {
+                                    format!("refused-wiped:{}", kind(&k))
+                                }
                             }
+                            norad::error::FontWriteError::CustomFile { name, .. } if name == "fontinfo.plist" => {
+                                format!("late:{}", if kept { "kept" } else { "wiped" })
+                            }
+                            _ => "other".into(),
                         }
-                        norad::error::FontWriteError::CustomFile { name, .. } if name == "fontinfo.plist" => {
-                            format!("late:{}", if kept { "kept" } else { "wiped" })
-                        }
-                        _ => "other".into(),
                     }
                 }
             }
         }
     };
+    let s = save_via(0);
+    let so = save_via(1);
+    let sq = save_via(2);
     // load
     std::fs::write(ctx.load_dir.join("fontinfo.plist"), raw.plist()).unwrap();
     let l = match guarded(|| Font::load(&ctx.load_dir)) {
@@ -689,7 +704,7 @@ pub fn observe(ctx: &Ctx, raw: &Raw) -> String {
     } else {
         "na".to_string()
     };
-    format!("v={} s={} l={} u2={} u1={}", v, s, l, u2, u1)
+    format!("v={} s={} so={} sq={} l={} u2={} u1={}", v, s, so, sq, l, u2, u1)
 }
 
 fn emit(out: &mut dyn Write, ctx: &Ctx, raw: &Raw) {
